@@ -9,7 +9,7 @@ pub fn prop() -> Prop {
     Prop {
         id: "C03",
         level: "fault_enumeration",
-        rule: "chunks over payload lengths {1..64, 255..257, 1399, 1400, 4096, 65532..65535, random}, all 71 boards, every chip/flags byte, declared length off by +-1..4, non-zero padding, CRCs over wrong ranges; library vs reference decision + fields + re-encoding + header_crc32c()/payload_crc32c(). For each accepted chunk: every single-bit flip, bursts of 2..32 bits at every bit offset (short chunks) or at header/tail + sampled offsets (long chunks), sampled 2- and 3-bit flips. Non-trivial = distinct (accepted chunk, corruption) pairs actually decoded + distinct near-valid chunks. Also: all-ones / alternating pattern bursts of 8..32 bits at every byte offset; plain and byte-swapped CRC words; zero words appended with consistent CRC; padding patterns that cancel under xor; chunks whose correct stored CRC words are forged to 0, 0xFFFFFFFF, 1, ... (full campaign on each); device ids mixed from two known boards; alignment independence. Round 4: every declared length 0..=65535 against bodies of 8..65 536 bytes ending in 0..260 zero bytes (header CRC consistent); header fields at constants harvested from the library sources jointly with one more header bit / byte changed.",
+        rule: "chunks over payload lengths {1..64, 255..257, 1399, 1400, 4096, 65532..65535, random}, all 71 boards, every chip/flags byte, declared length off by +-1..4, non-zero padding, CRCs over wrong ranges; library vs reference decision + fields + re-encoding + header_crc32c()/payload_crc32c(). For each accepted chunk: every single-bit flip, bursts of 2..32 bits at every bit offset (short chunks) or at header/tail + sampled offsets (long chunks), sampled 2- and 3-bit flips. Non-trivial = distinct (accepted chunk, corruption) pairs actually decoded + distinct near-valid chunks. Also: all-ones / alternating pattern bursts of 8..32 bits at every byte offset; plain and byte-swapped CRC words; zero words appended with consistent CRC; padding patterns that cancel under xor; chunks whose correct stored CRC words are forged to 0, 0xFFFFFFFF, 1, ... (full campaign on each); device ids mixed from two known boards; alignment independence. Round 4: every declared length 0..=65535 against bodies of 8..65 536 bytes ending in 0..260 zero bytes (header CRC consistent); header fields at constants harvested from the library sources jointly with one more header bit / byte changed. Round 5: first-decode probes (each fresh shard process starts with a different near-valid padded chunk). Round 6: alignment bytes left out (fully / partly) with a consistent CRC word, for every board and both flag values; every slice length 24..=2100 and sampled lengths up to 65 564 with 15 wrong declared lengths each.",
         assumptions: &["bitwise CRC-32C (reflected poly 0x82F63B78) verified against the test vector 0xE3069283 at start-up", "CRC-32C detects all 1-3 bit errors up to 64 KiB and all bursts <= 32 bits, so any accepted corruption is a genuine violation"],
         profiles: both,
         shards: shards16,
